@@ -16,9 +16,12 @@ VARIABLE st
 HasString(def) == \E i \in 1..Len(def.fields) : def.fields[i].isstr /\ def.fields[i].n >= 4
 HasExt(def) == \E i \in 1..Len(def.fields) : def.fields[i].ext
 Interesting(def) == HasString(def) \/ HasExt(def)
+\* messages whose strings are all extension fields are few and always chosen (a string that exists in v2 only)
+ExtOnlyString(def) == /\ \E i \in 1..Len(def.fields) : def.fields[i].isstr /\ def.fields[i].n >= 4 /\ def.fields[i].ext
+                      /\ \A i \in 1..Len(def.fields) : def.fields[i].isstr => def.fields[i].ext
 
 Chosen == {k \in 1..Len(Dl) : LET def == FromGo(Defs[Dl[k]]) IN
-              SizeExt(def) > 0 /\ ((k % Mod = Off % Mod) \/ (Interesting(def) /\ k % (Mod \div 3 + 1) = Off % (Mod \div 3 + 1)))}
+              SizeExt(def) > 0 /\ ((k % Mod = Off % Mod) \/ ExtOnlyString(def) \/ (Interesting(def) /\ k % (Mod \div 3 + 1) = Off % (Mod \div 3 + 1)))}
 
 Variants == {"canon", "untruncated", "padded", "after_nul", "ext_absent", "trailing_nz", "trailing_z", "v1", "v1_after_nul", "signed"}
 
